@@ -314,12 +314,21 @@ func truncate(s string, n int) string {
 	return s
 }
 
+type workerIn struct {
+	D  *Doc `json:"d"`
+	Ms int  `json:"ms"` // in-process hang timeout
+}
+
 func workerHandle(in string) (string, bool) {
-	var d Doc
-	if err := json.Unmarshal([]byte(in), &d); err != nil {
-		return `{"status":"ok","err":"bad worker input"}`, false
+	var wi workerIn
+	if err := json.Unmarshal([]byte(in), &wi); err != nil || wi.D == nil {
+		return `{"status":"fatal","site":"fatal:bad-worker-input"}`, false
 	}
-	o := runDoc(&d, workerTimeout)
+	to := workerTimeout
+	if wi.Ms > 0 {
+		to = time.Duration(wi.Ms) * time.Millisecond
+	}
+	o := runDoc(wi.D, to)
 	b, _ := json.Marshal(o)
 	return string(b), o.Exit
 }
